@@ -7,7 +7,7 @@ implementation (what was sent is iv ++ AES-CBC(PKCS7(serialize v)), verified wit
 `cryptography` library; what comes back equals what was bound), and compares with the model run under the identity
 cipher on ciphertexts normalised by that independent decryption.
 """
-import json, os, time
+import json, os, subprocess, time
 from vf import core
 from vf import bind_enc_impl as E
 
@@ -37,6 +37,30 @@ def gen_case(rng):
         vals = [None if rng.random() < 0.2 else E.gen_value(rng, c['type']) for c in cols]
         rows.append({'vals': vals, 'foreign': rng.random() < 0.15})
     case = _finish(rng, cols, rows)
+    if len(cols) >= 2 and rng.random() < 0.3:
+        # bind markers of SEVERAL tables (prepared BATCH; PREPARED response without global table spec): every column has its own
+        # keyspace/table; a plain column may share its NAME with an encrypted column of another table (and vice versa)
+        for c in cols:
+            c['tb'] = rng.choice(['t1', 't2', 't3'])
+            if rng.random() < 0.25:
+                c['ks'] = 'ks2'
+        cols[1]['tb'] = 't2' if cols[0].get('tb') == 't1' else 't1'
+        encs = [i for i, c in enumerate(cols) if c['key'] is not None]
+        if encs and rng.random() < 0.6:
+            i = rng.choice(encs)
+            others = [j for j, c in enumerate(cols) if j != i and (c.get('ks', 'ks'), c['tb']) != (cols[i].get('ks', 'ks'), cols[i]['tb'])]
+            if others:
+                j = rng.choice(others)
+                cols[j]['name'] = cols[i].get('name', 'c%d' % i)
+        seen = set()
+        for i in range(len(cols)):
+            while E.col_desc(case, i) in seen:
+                cols[i]['name'] = cols[i].get('name', 'c%d' % i) + 'x'
+            seen.add(E.col_desc(case, i))
+    encs = [i for i, c in enumerate(cols) if c['key'] is not None]
+    if encs and rng.random() < 0.2:
+        # columns put under encryption only AFTER a result containing them was decoded on the same policy object
+        case['late'] = sorted(rng.sample(encs, rng.randint(1, len(encs))))
     if rng.random() < 0.25:
         # ALTER TABLE ADD between PREPARE and EXECUTE: the response carries new metadata with one more (plain) column,
         # preferably right before an encrypted one; the statement still holds the old metadata
@@ -83,6 +107,10 @@ def evaluate(case):
     if res['bind_err']:
         probs.append(('bind.raised', 'binding valid values raised %s' % res['bind_err'], 'C39_transparent'))
         return res, probs, None
+    if case.get('late'):
+        exp_pre = [[(list(b'\x01raw') if i in case['late'] else None) for i in range(len(case['cols']))]]
+        if res['pre'] != exp_pre:
+            probs.append(('decode.before-registration', 'result decoded before add_column: %r, expected %r' % (res['pre'], exp_pre), 'C39_transparent_history'))
     norm = []
     normal_ok = True
     null_in_enc = False
@@ -99,15 +127,18 @@ def evaluate(case):
                 nrow.append(None if cell is None else list(cell))
             elif c['key'] is None:
                 if cell != ser:
-                    probs.append(('sent.plain-differs', 'plain column %d: sent %r, serializer gives %r' % (i, cell, ser), 'C39_sent_encrypted'))
+                    probs.append(('sent.plain-differs' + ('.multi-table' if len(set(E.col_desc(case, k)[:2] for k in range(len(case['cols'])))) > 1 else ''), 'plain column %d: sent %r, serializer gives %r' % (i, cell, ser), 'C39_sent_encrypted'))
                 nrow.append(None if cell is None else list(cell))
             else:
                 padded = None
                 if cell is not None and len(cell) >= 32 and (len(cell) - 16) % 16 == 0:
                     padded = E.aes_cbc_decrypt_raw(bytes.fromhex(c['key']), cell[:16], cell[16:])
                 if cell is None or cell[:16] != iv or padded is None or pkcs7_unpad(padded) != ser:
-                    probs.append(('sent.not-encrypted', 'encrypted column %d (%s): wire bytes %r are not iv ++ AES-CBC(PKCS7(serialize v))' %
-                                  (i, c['type'], None if cell is None else cell[:48].hex()), 'C39_sent_encrypted'))
+                    multi = len(set(E.col_desc(case, k)[:2] for k in range(len(case['cols'])))) > 1
+                    probs.append(('sent.not-encrypted' + ('.multi-table' if multi else ''),
+                                  'encrypted column %d %r (%s): wire bytes %r are not iv ++ AES-CBC(PKCS7(serialize v))' %
+                                  (i, E.col_desc(case, i) if i < len(case['cols']) and not case.get('changed') else i, c['type'],
+                                   None if cell is None else cell[:48].hex()), 'C39_sent_by_own_desc'))
                 if padded is None:
                     normal_ok = False
                     nrow.append(None)
@@ -115,7 +146,13 @@ def evaluate(case):
                     nrow.append(list(cell[:16] + padded))
         norm.append(nrow)
     want = [[E.canon(E.pyval(v)) for v in vs] for vs in evals]
-    cls = '.metadata-changed' if case.get('changed') else ('.null-in-encrypted-column' if null_in_enc else '')
+    # one failure class per case, rarest configuration first
+    multi = len(set(E.col_desc(case, i)[:2] for i in range(len(case['cols'])))) > 1
+    cls = ('.registered-after-first-decode' if case.get('late') else '.multi-table' if multi else
+           '.metadata-changed' if case.get('changed') else '.null-in-encrypted-column' if null_in_enc else '')
+    res['cls_compiled'] = '.null-in-encrypted-column' if null_in_enc else cls
+    res['want'] = want
+    res['cls'] = cls
     if res['decode_err']:
         probs.append(('decode.raised' + cls, 'decoding the echoed result raised %s' % res['decode_err'], 'C39_transparent'))
     elif res['decoded'] != want:
@@ -125,8 +162,25 @@ def evaluate(case):
 
 def g_case(case, res, norm):
     cols, _ = effective(case)
-    keys = '[' + '; '.join('None' if c['key'] is None else '(Some [%d])' % (i + 1) for i, c in enumerate(cols)) + ']'
-    cached = '[' + '; '.join('None' if c['key'] is None else '(Some [%d])' % (i + 1) for i, c in enumerate(case['cols'])) + ']'
+    ids = {}
+
+    def ident(x):
+        return ids.setdefault(x, len(ids) + 1)
+
+    def gdesc(d):
+        return '(%d, %d, %d)' % (ident('ks:' + d[0]), ident('tb:' + d[1]), ident('col:' + d[2]))
+    descs_old = [E.col_desc(case, i) for i in range(len(case['cols']))]
+    descs = list(descs_old)
+    ch = case.get('changed')
+    if ch:
+        near = descs_old[min(ch['pos'], len(descs_old) - 1)]
+        descs.insert(ch['pos'], (near[0], near[1], 'added'))
+    late = case.get('late') or []
+    regs_all = '[' + '; '.join('(%s, [%d])' % (gdesc(descs_old[i]), i + 1) for i, c in enumerate(case['cols']) if c['key'] is not None) + ']'
+    regs_before = '[' + '; '.join('(%s, [%d])' % (gdesc(descs_old[i]), i + 1) for i, c in enumerate(case['cols'])
+                                  if c['key'] is not None and i not in late) + ']'
+    keys = '(c39_keys %s [%s])' % (regs_all, '; '.join(gdesc(d) for d in descs))
+    cached = '(c39_keys %s [%s])' % (regs_all, '; '.join(gdesc(d) for d in descs_old))
     parts = []
     for foreign in (False, True):
         idx = [r for r, row in enumerate(case['rows']) if bool(row.get('foreign')) == foreign]
@@ -136,11 +190,43 @@ def g_case(case, res, norm):
         sers = [[None if c is None else list(c) for c in res['ser'][r]] for r in idx]
         parts.append('c39_rows_eqb (fst (c39_run %s %s %s)) (Some %s)' % (iv, keys, E.g_rows(sers), E.g_rows([norm[r] for r in idx])))
     dec = None if (res['decode_err'] or res['decoded_ser'] is None) else [[None if c is None else list(c) for c in r] for r in res['decoded_ser']]
+    if late and isinstance(res.get('pre'), list):
+        pre_wire = [[(list(b'\x01raw') if i in late else None) for i in range(len(case['cols']))]]
+        parts.append('c39_rows_eqb (c39_recv None (c39_keys %s [%s]) %s) (Some %s)' % (
+            regs_before, '; '.join(gdesc(d) for d in descs_old), E.g_rows(pre_wire), E.g_rows(res['pre'])))
     if case.get('changed'):
         parts.append('c39_rows_eqb (c39_recv (Some %s) %s %s) %s' % (keys, cached, E.g_rows(norm), E.g_opt_rows(dec)))
     else:
         parts.append('c39_rows_eqb (c39_recv None %s %s) %s' % (keys, E.g_rows(norm), E.g_opt_rows(dec)))
     return ' && '.join('(%s)' % p for p in parts)
+
+
+def run_compiled(ctx, built, cases, tag='w', depth=0):
+    """the same cases through the COMPILED protocol handlers (Cython row parsers) in a subprocess on the scratch build;
+    a batch that kills the interpreter is bisected until the crashing case is alone -> {'crash': ...}"""
+    inp = os.path.join(ctx.scratch, 'c39_%s_%d_%d.json' % (tag, depth, len(cases)))
+    outp = inp + '.out'
+    with open(inp, 'w') as f:
+        json.dump({'cases': cases, 'handlers': ['cython', 'cython-lazy']}, f)
+    env = dict(os.environ, PYTHONPATH=built + ':' + os.path.join(core.VERIF, 'lib'), PYTHONHASHSEED='0')
+    try:
+        p = subprocess.run(['/venv/bin/python', '-W', 'ignore', '-m', 'vf.bind_enc_worker', inp, outp], env=env, cwd=ctx.scratch,
+                           stdout=subprocess.PIPE, stderr=subprocess.STDOUT, text=True, timeout=900)
+        if p.returncode == 0:
+            with open(outp) as f:
+                out = json.load(f)
+            if not out['have_cython']:
+                raise RuntimeError('build has no compiled extensions')
+            return out['results']
+        detail = 'worker rc=%d: %s' % (p.returncode, p.stdout[-200:])
+    except subprocess.TimeoutExpired:
+        detail = 'worker timed out'
+    if len(cases) == 1:
+        return [{'cython': {'crash': detail}, 'cython-lazy': {'crash': detail}}]
+    if depth > 12:
+        return [{'cython': {'crash': detail}, 'cython-lazy': {'crash': detail}} for _ in cases]
+    h = len(cases) // 2
+    return run_compiled(ctx, built, cases[:h], tag + 'a', depth + 1) + run_compiled(ctx, built, cases[h:], tag + 'b', depth + 1)
 
 
 def short(x):
@@ -156,7 +242,7 @@ def run(ctx):
               '(recv_results_rows decode_val/decode_row) into Model/Encryption.v, tied by correspondence',
               '`cryptography` AES-256-CBC: Section hypothesis dec k iv (enc k iv x) = x for block-aligned x; also used independently by the harness',
               'per-type value codec round-trip (property C01) as Section hypothesis')
-    ctx.assume('pure-Python result decoder (the Cython obj_parser path belongs to C07)',
+    ctx.assume('compiled decoders are run when the extensions can be built (else stated in assumptions)',
                'policy IV has 16 bytes (checked by the policy constructor)')
     rng = ctx.rng
     ncases = 500 if ctx.tier == 'quick' else 5000
@@ -172,9 +258,10 @@ def run(ctx):
                 'non-trivial = distinct case with at least one encrypted column')
     ctx.exhaustive = False
     t1 = time.time()
-    gall, meta = [], []
+    gall, meta, all_meta = [], [], []
     for case in cases:
         res, probs, norm = evaluate(case)
+        all_meta.append((case, res))
         nenc = sum(1 for c in case['cols'] if c['key'] is not None)
         ctx.case(case, nontrivial=nenc > 0, sample={'case': case, 'decoded': res.get('decoded'), 'decode_err': res.get('decode_err')})
         ctx.count('columns', len(case['cols']))
@@ -184,6 +271,8 @@ def run(ctx):
         for row in case['rows']:
             for c, v in zip(case['cols'], row['vals']):
                 ctx.count('cell', ('enc' if c['key'] else 'plain') + ('-null' if v is None else ''))
+        ctx.count('tables', 'several' if len(set(E.col_desc(case, i)[:2] for i in range(len(case['cols'])))) > 1 else 'one')
+        ctx.count('registration', 'after a first decode' if case.get('late') else 'before any decode')
         ctx.count('metadata', 'in-frame (changed after ALTER TABLE)' if case.get('changed') else 'cached with the statement')
         ctx.count('outcome', 'decode-error' if res.get('decode_err') else ('bind-error' if res['bind_err'] else 'ok'))
         for key, what, thm in probs:
@@ -191,6 +280,36 @@ def run(ctx):
         if norm is not None:
             gall.append(g_case(case, res, norm))
             meta.append((case, res))
+    # ---- the compiled result decoders (obj_parser.pyx / row_parser.pyx via ProtocolHandler and LazyProtocolHandler)
+    built = None
+    try:
+        from vf import cybuild
+        built, sos, cached = cybuild.build_cached(core.REPO)
+        ctx.extra['compiled_build'] = {'cached': cached, 'extensions': len(sos)}
+    except Exception as e:
+        ctx.extra['compiled_build'] = 'not available: %s' % str(e)[-300:]
+        ctx.assume('compiled decoders NOT exercised in this run (extension build unavailable): %s' % str(e)[-120:])
+    if built:
+        ctx.trust('standalone extension build (lib/vf/cybuild.py) of the working tree; compiled handlers run in a subprocess on it')
+        evald = [(c, r) for c, r in all_meta if not r.get('bind_err')]
+        outs = run_compiled(ctx, built, [c for c, _ in evald])
+        for (case, res), per in zip(evald, outs):
+            for h in ('cython', 'cython-lazy'):
+                o = per.get(h) or {}
+                ctx.count('compiled_decoder', h + (':crash' if 'crash' in o else ':error' if o.get('decode_err') or o.get('harness_err') else ':ok'))
+                key = what = None
+                if 'crash' in o:
+                    key, what = 'decode.compiled.crash', 'the compiled decoder (%s) killed the interpreter: %s' % (h, o['crash'])
+                elif o.get('harness_err'):
+                    ctx.disagreement('harness.compiled', 'worker could not run the case through %s: %s' % (h, o['harness_err']), case=case)
+                elif o.get('bind_err') or o.get('decode_err'):
+                    key, what = 'decode.raised.compiled' + res['cls_compiled'], 'compiled decoder (%s) raised %s' % (h, o.get('decode_err') or o.get('bind_err'))
+                elif o['decoded'] != res['want']:
+                    key, what = 'decode.differs.compiled' + res['cls_compiled'], 'compiled decoder (%s): decoded rows %r, bound rows %r' % (h, o['decoded'], res['want'])
+                if key:
+                    ctx.violation(key, what + '  [case %s]' % short(case), case=dict(case, decoder=h), expected='rows decode to the bound values',
+                                  actual=short(o), theorem='C39_transparent')
+                    break
     t2 = time.time()
     try:
         bad = ctx.coq_filter(['Encryption'], '(fun b : bool => b)', gall, shard=100)
@@ -208,7 +327,15 @@ def replay(ctx, rp):
     if not case:
         print('nothing to replay: %s' % rp.get('theorem'))
         return 1
+    dec = case.pop('decoder', None) if isinstance(case, dict) else None
     res, probs, _ = evaluate(case)
+    if dec:
+        from vf import cybuild
+        built, sos, cached = cybuild.build_cached(core.REPO)
+        o = run_compiled(ctx, built, [case])[0].get(dec) or {}
+        print('compiled decoder %s -> %s' % (dec, short(o)))
+        if 'crash' in o or o.get('decode_err') or o.get('bind_err') or o.get('decoded') != res.get('want'):
+            probs.append(('decode.compiled', 'compiled decoder %s: %s, bound rows %r' % (dec, short(o), res.get('want')), 'C39_transparent'))
     print('replay %s\n -> decoded %s error %s' % (short(case), short(res.get('decoded')), res.get('decode_err') or res.get('bind_err')))
     for key, what, thm in probs:
         print('  %s: %s (%s)' % (key, what[:300], thm))
